@@ -125,6 +125,32 @@ func splitList(s string) []string {
 	return out
 }
 
+// splitTop splits at commas that are not nested in parentheses or quotes.
+func splitTop(s string) []string {
+	var out []string
+	depth, start, inq := 0, 0, false
+	for i, c := range s {
+		switch {
+		case c == '"':
+			inq = !inq
+		case inq:
+		case c == '(':
+			depth++
+		case c == ')':
+			depth--
+		case c == ',' && depth == 0:
+			if t := strings.TrimSpace(s[start:i]); t != "" {
+				out = append(out, t)
+			}
+			start = i + 1
+		}
+	}
+	if t := strings.TrimSpace(s[start:]); t != "" {
+		out = append(out, t)
+	}
+	return out
+}
+
 func NewContracts() *Contracts {
 	return &Contracts{Funcs: map[string]*FuncContract{}, Macros: map[string]*Macro{},
 		Ghosts: map[string]*GhostVar{}, Consts: map[string]string{}}
@@ -307,7 +333,7 @@ func (cs *Contracts) parseContractLines(pkg, file string, lines []string, truste
 			continue
 		}
 		if strings.HasPrefix(l.s, "assigns ") {
-			cur.Assigns = append(cur.Assigns, splitList(strings.TrimPrefix(l.s, "assigns "))...)
+			cur.Assigns = append(cur.Assigns, splitTop(strings.TrimPrefix(l.s, "assigns "))...)
 			continue
 		}
 		if m := reOpt.FindStringSubmatch(l.s); m != nil {
